@@ -1,0 +1,25 @@
+//go:build verif
+
+// Contracts for package stream_packet, checked by /verif (bfvc). Comment-only.
+package stream_packet
+
+// ---- C08: length-prefixed messages ----
+// SendMsg hands the stream one Write: the 4-byte little-endian length of the encoding, then the
+// encoding; messages longer than 2^31-1 bytes are refused.
+//@ func (*Session).SendMsg
+//@   noframe
+//@   nosweep nil-deref
+//@   assert at call invoke.Write: len(data) <= 2147483647 && len(arg0) == len(data) + 4
+//@   assert at call invoke.Write: content(arg0)[0..4] == le32enc(len(data))
+//@   assert at call invoke.Write: content(arg0)[4..len(arg0)] == content(data)
+
+// RecvMsg reads 4 bytes as a little-endian length n, refuses n above the limit, and decodes the
+// message from exactly the next n bytes; on success exactly 4+n bytes have been consumed.
+//@ func (*Session).RecvMsg
+//@   noframe
+//@   nosweep nil-deref
+//@   assert at call ReadFull: true
+//@   assert at call invoke.UnmarshalVT: len(arg0) == le32(rdstr(s.ReadWriteCloser, atcall(ReadFull, rdpos[arg0]), atcall(ReadFull, rdpos[arg0]) + 4)) && 1 <= len(arg0) && len(arg0) <= s.maxMessageSize
+//@   assert at call invoke.UnmarshalVT: content(arg0) == rdstr(s.ReadWriteCloser, atcall(ReadFull, rdpos[arg0]) + 4, atcall(ReadFull, rdpos[arg0]) + 4 + len(arg0))
+//@   assert at call invoke.UnmarshalVT: rdpos[s.ReadWriteCloser] == atcall(ReadFull, rdpos[arg0]) + 4 + len(arg0)
+//@   assert at make: size <= 4 || size <= s.maxMessageSize
